@@ -407,6 +407,16 @@ func (m *Model) lmove(s *Session, src, dst string, srcLeft, dstLeft bool) Reply 
 		v, so.L = so.L[len(so.L)-1], so.L[:len(so.L)-1]
 	}
 	m.touch(s.DB, src)
+	if src == dst {
+		// rotation: Redis pushes before it looks whether the source became empty, so the key
+		// (and its expiry) survives even for a single element
+		if dstLeft {
+			so.L = append([]string{v}, so.L...)
+		} else {
+			so.L = append(so.L, v)
+		}
+		return Bulk(v)
+	}
 	m.dropIfEmpty(s.DB, src)
 	do := m.get(s.DB, dst)
 	if do == nil {
